@@ -27,7 +27,7 @@ RULE = (
     "identical proteins) with mirrored decoys in the same relative order, a peptide table = drawn subset of target and "
     "decoy peptides with distinct scores, each optionally decorated (flanks K.X.A / -.X.-, [..] and (..) modifications "
     "incl. a dot, lower-case modification letters, a second modified variant), proteins route = read_fasta or a "
-    "Proteins object built from the reference grouping. Non-trivial: >=1 shared peptide observed and >=1 pair where "
+    "Proteins object built from the reference grouping, PSM table as text or Parquet. Non-trivial: >=1 shared peptide observed and >=1 pair where "
     "both sides have a unique peptide. Distinct = distinct canonical JSON."
 )
 ASSUMPTIONS = [
@@ -74,7 +74,8 @@ def _case(draw, tier):
                     table.append({"side": side, "j": j, "decor": draw(st.sampled_from(["bracket", "dotmod", "paren"])),
                                   "rank": draw(st.integers(0, 10**6)), "variant": True})
     return {"matrix": rows, "table": table, "route": draw(st.sampled_from(["fasta", "fasta", "object"])),
-            "known_order": "mirror", "conf_chunk": draw(st.sampled_from([None, 2, 5]))}
+            "known_order": "mirror", "conf_chunk": draw(st.sampled_from([None, 2, 5])),
+            "fmt": draw(st.sampled_from(["tsv", "tsv", "parquet"]))}
 
 
 def strategy(tier):
@@ -192,7 +193,7 @@ def check(case):
                     shared[p] = "; ".join(names[o] for o in own)
             prot = Proteins(decoy_prefix=PREFIX, peptide_map=pmap, shared_peptides=shared,
                             protein_map={m: PREFIX + m for m in S_t}, has_decoys=True)
-        path = tmp / "psms.pin"
+        path = tmp / ("psms.parquet" if case.get("fmt") == "parquet" else "psms.pin")
         datagen.write_table(df, path)
         ds = datagen.build_ondisk(path, df, meta)
         out = tmp / "out"
@@ -260,7 +261,7 @@ def check(case):
                 f"pair {sorted(pairs[gi]['t'])}: q-value {by_pair[gi]['q-value']} != {qref[gi]} over the {len(order)} entries")
         pep = float(by_pair[gi]["posterior_error_prob"])
         require(abs(pep - float(config_inject.pep_stub([expected[gi]["score"]])[0])) <= 1e-9, "protein-pep", "PEP is not that of the entry's score")
-    classes = [case["route"]]
+    classes = [case["route"], case.get("fmt", "tsv")]
     if shared_seen:
         classes.append("shared-peptide-observed")
     if both_sides:
